@@ -3,7 +3,7 @@ from itertools import combinations
 import numpy as np
 
 try:
-    from pyparsing import Combine, Literal, Optional, Regex, Word, alphas, nums
+    from pyparsing import Combine, Literal, Optional, Regex, Word, alphas, nums, oneOf
 except ImportError:
     raise ImportError(
         e.message()
@@ -88,7 +88,9 @@ class UAIReader(object):
             grammar += function_grammar
 
         floatnumber = Combine(
-            Word(nums) + Optional(Literal(".") + Optional(Word(nums)))
+            Word(nums)
+            + Optional(Literal(".") + Optional(Word(nums)))
+            + Optional(oneOf("e E") + Optional(oneOf("+ -")) + Word(nums))
         )
         for function in range(0, self.no_functions):
             no_values_grammar = Word(nums).setResultsName(
